@@ -126,6 +126,8 @@ manifest = {
     "engines": [
         {"name": "vharness", "path": "/verif/harness", "serves_properties": [c["property_id"] for c in checks],
          "kind_free_text": "Rust binary `vcheck`: tape-driven generators decoded from proptest-generated u32 vectors (fixed seed from VERIF_SEED, sharded over 16 threads, shrinking on the tape), complete enumeration of small scopes, explicit oracles (reference models, round trips, differential routes), replay files that bypass the generator"},
+        {"name": "libfuzzer", "path": "/verif/fuzz", "serves_properties": [c["property_id"] for c in checks if c["property_id"] not in ("C05", "C14", "C16")],
+         "kind_free_text": "cargo-fuzz / libFuzzer targets (thorough tier only, after the proptest/enumeration run): `tape_prop` feeds libFuzzer's bytes into the same tape decoder, generator and oracle as the vharness check of the property named by VERIF_FUZZ_PROP (coverage-guided search over the generator's choices); `text_parse` feeds raw text (token dictionary, documentation corpus as seeds) to the C03 totality oracle. Fresh corpus per run, -seed from VERIF_SEED, wall-clock bounded (VERIF_FUZZ_SECS, default 240 s, 8 jobs); a failing input is written as a replay file for `./check <id> replay`. Not used for C05, C14 and C16 (repetition / enumeration / schedule sampling, no generator for the fuzzer to steer)."},
     ],
     "checks": checks,
     "not_applicable": na,
